@@ -648,6 +648,12 @@ class ImageSegmentHeader(NITFElement):
         self._mask_subheader = None
         super(ImageSegmentHeader, self).__init__(**kwargs)
 
+    def __setattr__(self, name, value):
+        super(ImageSegmentHeader, self).__setattr__(name, value)
+        if name == 'ICORDS' and hasattr(self, '_IGEOLO'):
+            # the presence of IGEOLO follows ICORDS: let the IGEOLO setter reconcile the stored value
+            self.IGEOLO = self._IGEOLO
+
     @property
     def is_masked(self):
         """
@@ -1062,6 +1068,12 @@ class ImageSegmentHeader0(NITFElement):
         self._IGEOLO = None
         self._mask_subheader = None
         super(ImageSegmentHeader0, self).__init__(**kwargs)
+
+    def __setattr__(self, name, value):
+        super(ImageSegmentHeader0, self).__setattr__(name, value)
+        if name == 'ICORDS' and hasattr(self, '_IGEOLO'):
+            # the presence of IGEOLO follows ICORDS: let the IGEOLO setter reconcile the stored value
+            self.IGEOLO = self._IGEOLO
 
     @property
     def is_masked(self):
